@@ -160,10 +160,112 @@ fn trace(a: &Args) -> i32 {
     0
 }
 
+/// End to end: the real server process, spoken to over TCP with the real codec.
+///  - a seeded SQL conversation whose Rows answers must equal what an in-process database renders for the same statements
+///    (rows with NULLs, empty strings, non-ASCII text, zero rows, many rows);
+///  - every byte string the specification rejects, framed and sent on a fresh connection: the connection must end or answer
+///    within the limit and the server must stay alive (a later Ping gets its Pong).
+fn server(a: &Args) -> i32 {
+    use std::io::{Read, Write};
+    use std::net::TcpStream;
+    use std::time::Duration;
+    let bin = a.str("server-bin", "");
+    let dir = std::path::PathBuf::from(a.str("dir", "/verif/work/wire-srv"));
+    let _ = std::fs::remove_dir_all(&dir);
+    std::fs::create_dir_all(&dir).unwrap();
+    let seed = a.num("seed", 1);
+    let port = 20000 + (std::process::id() % 20000) as u16;
+    let mut child = match std::process::Command::new(&bin).args(["-p", &port.to_string(), "-f", dir.join("srv.axm").to_str().unwrap()]).stdout(std::process::Stdio::null()).stderr(std::process::Stdio::null()).spawn() {
+        Ok(c) => c, Err(e) => { eprintln!("cannot start server {bin}: {e}"); return 2; }
+    };
+    let connect = || -> Option<TcpStream> { for _ in 0..100 { if let Ok(s) = TcpStream::connect(("127.0.0.1", port)) { s.set_read_timeout(Some(Duration::from_secs(10))).ok(); s.set_write_timeout(Some(Duration::from_secs(10))).ok(); return Some(s); } std::thread::sleep(Duration::from_millis(50)); } None };
+    let mut t = Trace::create(std::path::Path::new(&a.str("out", "/verif/work/wire-server.ndjson")));
+    let mut problems: Vec<String> = vec![];
+    let ask = |s: &mut TcpStream, r: &Request| -> Result<Response, String> { tcp::send_request(s, r).map_err(|e| format!("send: {e}"))?; tcp::recv_response(s).map_err(|e| format!("recv: {e}")) };
+    let Some(mut c) = connect() else { let _ = child.kill(); eprintln!("server did not come up"); return 2; };
+    let alive = |problems: &mut Vec<String>, what: &str| { match connect() { Some(mut p) => match ask(&mut p, &Request::Ping) { Ok(Response::Pong) => {} other => problems.push(format!("after {what}: Ping answered {other:?}")) }, None => problems.push(format!("after {what}: the server no longer accepts connections")) } };
+    // 1. the SQL conversation, mirrored in process
+    let mirror = axmosdb::Database::create(dir.join("mirror.axm"), crate::eng::default_cfg()).expect("mirror");
+    let mut r = util::rng(seed, 20);
+    let mut stmts: Vec<String> = vec!["CREATE TABLE w (id INT, a INT, t TEXT)".into(), "SELECT id, a, t FROM w".into()];
+    for i in 1..=40 { let t = rand_string(&mut r, 12).replace('\'', "").replace('\0', "").replace('\\', ""); stmts.push(format!("INSERT INTO w (id, a, t) VALUES ({i}, {}, {})", if r.random_range(0..5) == 0 { "NULL".to_string() } else { r.random_range(-9..99).to_string() }, if r.random_range(0..6) == 0 { "NULL".to_string() } else { format!("'{t}'") })); if i % 7 == 0 { stmts.push(format!("SELECT id, a, t FROM w WHERE id >= {}", r.random_range(0..i))); } }
+    stmts.push("SELECT id, a, t FROM w".into());
+    stmts.push("SELECT COUNT(*) FROM w".into());
+    stmts.push("DELETE FROM w WHERE id > 100".into());
+    stmts.push("SELECT nosuch FROM w".into());
+    let (mut rows_compared, mut convs) = (0usize, 0usize);
+    for sql in &stmts {
+        let got = ask(&mut c, &Request::Sql(sql.clone()));
+        let want = mirror.execute(sql);
+        convs += 1;
+        let same = match (&got, &want) {
+            (Ok(Response::Rows { columns, data }), Ok(axmosdb::runtime::QueryResult::Rows(rows))) => {
+                let wc: Vec<String> = if rows.is_empty() { vec![] } else { (0..rows.num_columns()).map(|i| rows.column(i).expect("column").to_string()).collect() };
+                let wd: Vec<Vec<String>> = rows.iterrows().map(|row| row.iter().map(|v| v.to_string()).collect()).collect();
+                rows_compared += wd.len();
+                *columns == wc && *data == wd
+            }
+            (Ok(Response::RowsAffected(n)), Ok(axmosdb::runtime::QueryResult::RowsAffected(m))) => n == m,
+            (Ok(Response::Ddl(_)), Ok(axmosdb::runtime::QueryResult::Ddl(_))) => true,
+            (Ok(Response::Error(_)), Err(_)) => true,
+            _ => false,
+        };
+        t.ev(json!({"ev": "srv", "sql": sql.chars().take(80).collect::<String>(), "same": same}));
+        if !same { problems.push(format!("{sql}: server answered {:?}, in process {:?}", got.as_ref().map(|x| format!("{x:?}").chars().take(200).collect::<String>()), want.as_ref().map(|_| "ok").map_err(|e| e.to_string()))); }
+    }
+    // transaction verbs
+    for (req, want) in [(Request::Begin, "SessionStarted"), (Request::Sql("INSERT INTO w (id, a, t) VALUES (500, 1, 'x')".into()), "RowsAffected"), (Request::Rollback, "SessionEnd"), (Request::Commit, "Error"), (Request::Ping, "Pong")] {
+        let got = ask(&mut c, &req).map(|x| format!("{x:?}")).unwrap_or_else(|e| e);
+        let ok = got.starts_with(want);
+        t.ev(json!({"ev": "srv", "sql": format!("{req:?}").chars().take(60).collect::<String>(), "same": ok}));
+        if !ok { problems.push(format!("{req:?}: answered {got}")); }
+    }
+    drop(c);
+    // 2. garbage on fresh connections
+    let text = std::fs::read_to_string(a.str("cases", "")).unwrap_or_default();
+    let mut garbage = 0usize;
+    for (k, line) in text.lines().enumerate() {
+        let cse: Value = match serde_json::from_str(line) { Ok(v) => v, Err(_) => continue };
+        if cse["kind"] != "req" || cse["verdict"]["ok"] == true { continue; }
+        let bytes = bytes_of(&cse["bytes"]);
+        let Some(mut s) = connect() else { problems.push("the server no longer accepts connections".into()); break; };
+        s.set_read_timeout(Some(Duration::from_secs(5))).ok();
+        let mut frame = (bytes.len() as u32).to_le_bytes().to_vec();
+        frame.extend_from_slice(&bytes);
+        let _ = s.write_all(&frame);
+        let _ = s.flush();
+        let mut buf = [0u8; 64];
+        let ended = match s.read(&mut buf) { Ok(_) => true, Err(e) => e.kind() != std::io::ErrorKind::WouldBlock && e.kind() != std::io::ErrorKind::TimedOut };
+        garbage += 1;
+        t.ev(json!({"ev": "garbage", "bytes": bytes.len(), "ended": ended}));
+        if !ended { problems.push(format!("no answer and no close within 5 s for bytes {bytes:?}")); }
+        if k % 97 == 0 { alive(&mut problems, &format!("garbage {bytes:?}")); }
+        if problems.len() > 5 { break; }
+    }
+    // an absurd length prefix, and a frame cut short
+    for junk in [vec![0xff, 0xff, 0xff, 0x7f], vec![10, 0, 0, 0, 1, 7]] {
+        if let Some(mut s) = connect() { let _ = s.write_all(&junk); let _ = s.shutdown(std::net::Shutdown::Write); let mut b = [0u8; 16]; let _ = s.read(&mut b); }
+    }
+    alive(&mut problems, "oversized / truncated frames");
+    // 3. shutdown
+    if let Some(mut s) = connect() { let _ = ask(&mut s, &Request::Shutdown); }
+    let mut exited = false;
+    for _ in 0..100 { if let Ok(Some(_)) = child.try_wait() { exited = true; break; } std::thread::sleep(Duration::from_millis(50)); }
+    if !exited { let _ = child.kill(); let _ = child.wait(); }
+    t.ev(json!({"ev": "srv", "sql": "shutdown", "same": true}));
+    let n = t.finish();
+    let _ = std::fs::remove_dir_all(&dir);
+    let out = a.str("report", "");
+    if !out.is_empty() { std::fs::write(&out, serde_json::to_string_pretty(&json!({"problems": problems})).unwrap()).unwrap(); }
+    println!("{}", json!({"events": n, "statements": convs, "rows_compared": rows_compared, "garbage_frames": garbage, "problems": problems.len(), "first": problems.first()}));
+    0
+}
+
 pub fn main(a: &Args) -> i32 {
     match a.0.first().map(|s| s.as_str()) {
         Some("replay") => replay(a),
         Some("trace") => trace(a),
+        Some("server") => server(a),
         _ => { eprintln!("usage: axv wire replay|trace"); 2 }
     }
 }
